@@ -171,7 +171,7 @@ CLAIMED = {
              "document skeleton. The Lean tree-builder and tokenizer models make every Python exception source and every "
              "loop's fuel explicit and reproduce the class and site of every exception the real parser raised (this is how the "
              "non-termination, assertion, AttributeError and RecursionError defects fixed in /repo were found). Proved on the "
-             "model (C02c, C03b, C03c, C03d, C03e; ~960 theorems): the tokenizer never runs out of fuel and from the entry states raises nothing "
+             "model (C02c, C03b, C03c, C03d, C03e, C03f; ~970 theorems): the tokenizer never runs out of fuel and from the entry states raises nothing "
              "but one recorded ValueError site; every helper loop of the tree builder has enough fuel in every state; nested "
              "phase re-dispatch is at most 6 deep for all phases and tokens (sharp); the EOF loop and the token loop terminate; "
              "C03_total_fuel_partial: Parser.parse never runs out of fuel except possibly in the reprocess loop and Dom.toTree. "
@@ -184,7 +184,9 @@ CLAIMED = {
              "reachable state and for every such token the reprocess loop and TB.step never run out of fuel "
              "(C03d_reprocess_total_partial_easy2, C03d_step_total_easy2). C03e: the same for 62 of the 74 keyed end-tag names and "
              "42 of the 109 keyed start-tag names (families computed from the extracted dispatch tables): C03e_step_total_easy4 - "
-             "TB.step never runs out of fuel for any token except 67 start-tag names and 12 end-tag names. Still open: those "
+             "TB.step never runs out of fuel for any token except 67 start-tag names and 12 end-tag names; C03f adds the head-content "
+             "start tags and the implied end tags head/body/br (C03f_step_total_easy6: all tokens except 57 start-tag names and "
+             "9 end-tag names). Still open: those "
              "names (table family, head/body/html, foreign break-out elements: the measure "
              "needs the stack length as well; reprocessLoop_total_of_measure reduces totality to it) and arena acyclicity for "
              "Dom.toTree, so C03_total_fuel stays partial for those; "
